@@ -27,6 +27,7 @@ LEVEL_TEXT = (
     "every genotype complete unless NOA/AF0, and assemble's SNVPOS contains the polymorphic columns of its REF/ALT."
 )
 LEVEL_TEXT += ' Session 3: mixed-ploidy pipelines with a per-sample ploidy file.'
+LEVEL_TEXT += ' Session 4: pooled assemblies (named pool / pool file with a shared member), wide loci (130-200 SNVs), two samples per BAM, and the documented two-step workflow in which call / call-exact take assemble\'s INFO AFP as --prior-frequencies.'
 LEVEL_NOTE = "Trusts pysam's VCF reader (it is part of the product's input path) and the independent text parser in vlib/vcfparse.py."
 RULE = (
     "case = one generated haplotype record (function level) or one (dataset, program) pipeline run; non-trivial = record with >=1 ALT "
@@ -45,7 +46,8 @@ def plan(tier, seed):
 def required(tier):
     return {"records_roundtripped": 1500, "records_with_alts": 800, "records_multiallelic_site": 200, "records_no_alt": 50,
             "records_no_variable_site": 50, "sites_checked": 2000, "pipelines_run": 20, "pipeline_records_checked": 60,
-            "pipeline_gts_checked": 150, "assemble_records_snvpos_checked": 40}
+            "pipeline_gts_checked": 150, "assemble_records_snvpos_checked": 40,
+            "pipelines_pooled": 4, "pipelines_call_prior_from_assemble_afp": 6, "pipelines_wide_locus": 2}
 
 
 def run_fn(tier, seed, spec, col):
@@ -137,8 +139,20 @@ def run_pipe(tier, seed, spec, col):
         n_samples = int(rng.integers(1, 4))
         ploidy = int(rng.choice([2, 4]))
         mixed = bool(rng.random() < 0.4)
-        ds = datasets.make_dataset(rng, root, n_samples=n_samples, n_loci=int(rng.integers(3, 6)), ploidy=[2, 4, 6] if mixed else [ploidy], depth=(0, 14) if rng.random() < 0.3 else (6, 16),
-                                   contig_len=700, snv_range=(0, 4), hostile=0.1)
+        # session 4: wide loci (more SNVs / listed haplotypes than int8 holds), pooled assembly, assemble's AFP as the call prior
+        wide = dI == spec["datasets"] - 1 and (tier != "quick" or spec["shard"] % 4 == 0)
+        pooled = (not wide) and rng.random() < 0.25
+        if wide:
+            mixed = False
+            ds = datasets.make_dataset(rng, root, n_samples=int(rng.integers(1, 3)), n_loci=2, ploidy=[ploidy], depth=(8, 14), contig_len=1300,
+                                       snv_range=(130, 200), hostile=0.05, locus_len=(280, 380), read_len=(60, 110))
+            col.count("pipelines_wide_locus")
+        else:
+            ds = datasets.make_dataset(rng, root, n_samples=n_samples, n_loci=int(rng.integers(3, 6)), ploidy=[2, 4, 6] if mixed else [ploidy], depth=(0, 14) if rng.random() < 0.3 else (6, 16),
+                                       contig_len=700, snv_range=(0, 4), hostile=0.1, samples_per_bam=int(rng.choice([1, 1, 2])))
+        if pooled:
+            mixed = False
+            ploidy = int(rng.choice([2, 4, 6]))
         if mixed:
             # per-sample ploidy file (samples of different ploidy assembled and called together)
             ploidy = os.path.join(root, "ploidy.txt")
@@ -150,8 +164,22 @@ def run_pipe(tier, seed, spec, col):
         args = ["assemble", "--bam"] + ds.bams + ["--targets", ds.bed, "--variants", ds.vcf, "--reference", ds.fasta, "--ploidy", str(ploidy),
                                                   "--mcmc-steps", "150", "--mcmc-burn", "75", "--mcmc-seed", str(int(rng.integers(0, 1000)) if rng.random() < 0.8 else 0),
                                                   "--haplotype-posterior-threshold", str(thr)]
-        if rng.random() < 0.5:
+        afp = rng.random() < 0.6
+        if afp:
             args += ["--report", "AFP"]
+        pool_args = []
+        if pooled:
+            if rng.random() < 0.5 or len(ds.samples) < 2:
+                pool_args = ["--sample-pool", "POOL"]
+            else:
+                pf = os.path.join(root, "pools.txt")
+                with open(pf, "w") as fh:
+                    for i_, s_ in enumerate(ds.samples):
+                        fh.write("%s\tP%d\n" % (s_, 1 + i_ % 2))
+                    fh.write("%s\tP2\n" % ds.samples[0])   # one sample in two pools
+                pool_args = ["--sample-pool", pf]
+            args += pool_args
+            col.count("pipelines_pooled")
         F = float(rng.choice([0.0, 0.0, 0.1, 0.4]))
         if F:
             args += ["--inbreeding", repr(F)]
@@ -176,7 +204,11 @@ def run_pipe(tier, seed, spec, col):
                 col.count("assemble_records_no_alt")
         hv = datasets.write_text_vcf(os.path.join(root, "asm.vcf"), out)
         for prog in ("call", "call-exact"):
-            a2 = [prog, "--haplotypes", hv, "--reference", ds.fasta, "--bam"] + ds.bams + ["--ploidy", str(ploidy)]
+            a2 = [prog, "--haplotypes", hv, "--reference", ds.fasta, "--bam"] + ds.bams + ["--ploidy", str(ploidy)] + pool_args
+            if afp and rng.random() < 0.5:
+                # the documented two-step workflow: assemble's population AFP is the prior of the calling step
+                a2 += ["--prior-frequencies", "AFP"]
+                col.count("pipelines_call_prior_from_assemble_afp")
             if prog == "call":
                 a2 += ["--mcmc-steps", "150", "--mcmc-burn", "75", "--mcmc-seed", str(int(rng.choice([0, 3, 42])))]
             if F:
